@@ -1028,6 +1028,9 @@ func (d *c16Drv) line(w []string) string {
 	if r, ok := d.c16cLine(w); ok { // zz_verif_c16c_test.go: full-field download requests, {set desc} under store faults
 		return r
 	}
+	if r, ok := d.c16fLine(w); ok { // zz_verif_c16f_test.go: declared content types, the real GC goroutine
+		return r
+	}
 	return d.hist(w)
 }
 
